@@ -224,6 +224,10 @@ def _work(task):
     prefix, extend, L, alpha_kind, init_enum, min_len, subcheck_max = task
     from pycparser.c_parser import CParser
 
+    # "<alphabet>@<k>": the same sweep with spelling variant k of the td/obj events
+    alpha_kind, _, variant = alpha_kind.partition("@")
+    S.SPELLING = int(variant or 0)
+
     parser = CParser()
     alpha = S.alphabet(alpha_kind, init_enum)
     acc = _Acc()
@@ -257,7 +261,7 @@ def _work(task):
 
 
 def _tasks(L, alpha_kind, init_enum, min_len, subcheck_max):
-    alpha = S.alphabet(alpha_kind, init_enum)
+    alpha = S.alphabet(alpha_kind.partition("@")[0], init_enum)
     P = min(PREFIX_LEN, L)
     frontier = [((), S.INITIAL)]
     tasks = [((), P == 0, L, alpha_kind, init_enum, min_len, subcheck_max)]
@@ -322,6 +326,10 @@ def run(tier):
         sweeps = [("full", 3, True, 0), ("reduced", 4, False, 4), ("core", 5, False, 5)]
     else:
         sweeps = [("full", 4, True, 0), ("reduced", 5, False, 5), ("core", 7, False, 6)]
+    # spelling variants of the declaring events (struct/enum specifiers,
+    # pointer/array/parenthesised declarators, initialisers, two declarators)
+    for v in sorted(S.SPELLINGS)[1:]:
+        sweeps.append((f"core@{v}", 4 if quick else 5, False, 0))
     tasks = []
     for kind, L, ie, min_len in sweeps:
         # the sub-checks run after every replayed history (their extra label /
